@@ -373,7 +373,9 @@ class VarianceMeanCount(object):
 
         res = variance_mean_count(var, mean, count)
 
-        yield _maybe_with_context(res, self._cur_context)
+        # deep copy as in the other elements: the yielded context
+        # must not be shared with the filled value or later results
+        yield _maybe_with_context(res, copy.deepcopy(self._cur_context))
 
     def _reset(self):
         r"""Reset sum_sq, sum\_, count and context."""
